@@ -426,117 +426,75 @@ Proof.
     cbn [option_map fst snd]. do 2 f_equal. unfold a. rewrite Z.abs_eq by lia. reflexivity.
 Qed.
 
-Lemma dread_dfmt_prec d p t : (ds d <= p)%N -> dfmt_prec d p = Some t ->
-  dread t = Some (mkDec (dm d * pow10 (p - ds d)) p).
+(* hand padding (Scale::with_decimals) writes the same text as the library would with a
+   precision: the stored decimals followed by zeros *)
+Lemma fixed_digits_pad j : forall n k, 0 <= n ->
+  fixed_digits (n * pow10 (N.of_nat j)) (k + j) = fixed_digits n k ++ repeat 48%N j.
+Proof.
+  induction j as [|j IH]; intros n k Hn.
+  - cbn [N.of_nat repeat]. rewrite c17_pow10_0, Z.mul_1_r, Nat.add_0_r, app_nil_r. reflexivity.
+  - rewrite Nat.add_succ_r. cbn [fixed_digits]. rewrite c17_pow10_nat.
+    replace (n * (10 * pow10 (N.of_nat j))) with (n * pow10 (N.of_nat j) * 10) by ring.
+    rewrite Z.div_mul, Z.mod_mul by lia. rewrite IH by assumption.
+    rewrite <- app_assoc. f_equal. change [digit 0] with [48%N].
+    rewrite <- repeat_cons. reflexivity.
+Qed.
+
+Lemma with_decimals_raw d p : (ds d <= p)%N -> with_decimals d p = dfmt_raw d p.
+Proof.
+  intros H. unfold with_decimals, dfmt.
+  destruct (N.ltb_spec (ds d) p) as [L|L].
+  2:{ replace p with (ds d) by lia. reflexivity. }
+  unfold dfmt_raw. cbv zeta. rewrite <- !app_assoc. f_equal. f_equal.
+  pose proof (c17_pow10_pos (ds d)) as HS.
+  pose proof (Z.mod_pos_bound (Z.abs (dm d)) (pow10 (ds d)) HS) as B.
+  set (fp := Z.abs (dm d) mod pow10 (ds d)) in *.
+  rewrite !N.sub_diag, c17_pow10_0, Z.mul_1_r, Z.div_1_r.
+  replace (ds d - p)%N with 0%N by lia. rewrite c17_pow10_0, Z.div_1_r.
+  destruct (N.eqb_spec p 0) as [P0|P0]; [lia|].
+  replace (pow10 (p - ds d)) with (pow10 (N.of_nat (N.to_nat (p - ds d)))) by (rewrite N2Nat.id; reflexivity).
+  replace (N.to_nat p) with (N.to_nat (ds d) + N.to_nat (p - ds d))%nat by lia.
+  rewrite fixed_digits_pad by lia.
+  destruct (N.eqb_spec (ds d) 0) as [S0|S0].
+  - rewrite S0. cbn [N.to_nat fixed_digits app]. reflexivity.
+  - cbn [app]. reflexivity.
+Qed.
+
+(* whenever the library's Display-with-precision does not panic it prints what the hand
+   padding prints *)
+Lemma dfmt_prec_with_decimals d p t : (ds d <= p)%N -> dfmt_prec d p = Some t ->
+  t = with_decimals d p.
 Proof.
   intros H E. unfold dfmt_prec in E. destruct (dfmt_room d p); [|discriminate].
-  inversion E; subst. apply dread_dfmt_raw. assumption.
+  inversion E. symmetry. apply with_decimals_raw. assumption.
 Qed.
 
 (* the text of a shown figure denotes the shown value, with exactly `precision` decimals *)
-Lemma shown_text_reads sc d t : shown_text sc d = Some t ->
-  dread t
+Lemma shown_text_reads sc d :
+  dread (shown_text sc d)
   = Some (mkDec (dm (shown_dec sc d) * pow10 (precision sc d - ds (shown_dec sc d))) (precision sc d)).
-Proof. unfold shown_text. apply dread_dfmt_prec. unfold shown_dec. apply ds_dround. Qed.
+Proof.
+  unfold shown_text. assert (H : (ds (shown_dec sc d) <= precision sc d)%N)
+    by (unfold shown_dec; apply ds_dround).
+  rewrite with_decimals_raw by assumption. apply dread_dfmt_raw. assumption.
+Qed.
 
-Lemma shown_text_value sc d t : shown_text sc d = Some t -> exists r,
-  dread t = Some r /\ ds r = precision sc d
+Lemma shown_text_value sc d : exists r,
+  dread (shown_text sc d) = Some r /\ ds r = precision sc d
   /\ (qval r == qval (shown_dec sc d))%Q.
 Proof.
-  intros T. eexists. split; [apply (shown_text_reads sc d t T)|]. split; [reflexivity|].
+  eexists. split; [apply shown_text_reads|]. split; [reflexivity|].
   apply qval_scale_up. unfold shown_dec. apply ds_dround.
 Qed.
 
-Lemma shown_digits sc d t : (sc_min sc <= sc_max sc)%N -> shown_text sc d = Some t -> exists r,
-  dread t = Some r
+Lemma shown_digits sc d : (sc_min sc <= sc_max sc)%N -> exists r,
+  dread (shown_text sc d) = Some r
   /\ (sc_min sc <= ds r <= sc_max sc)%N
   /\ (qval r == qval (shown_dec sc d))%Q.
 Proof.
-  intros W T. destruct (shown_text_value sc d t T) as (r & R & S & V).
+  intros W. destruct (shown_text_value sc d) as (r & R & S & V).
   exists r. split; [assumption|]. split; [|assumption].
   rewrite S. apply precision_bounds. assumption.
-Qed.
-
-(* ------------------------------------------------------------------ when is there a text at all *)
-Lemma int_digits_len fuel : forall x n, 0 <= x < 10 ^ Z.of_nat n -> (0 < n)%nat ->
-  (length (int_digits fuel x) <= n)%nat.
-Proof.
-  induction fuel as [|f IH]; intros x n Hx Hn; cbn [int_digits]; [cbn; lia|].
-  rewrite app_length. cbn [length].
-  destruct (Z.ltb_spec x 10) as [S|S]; [cbn [length]; lia|].
-  destruct n as [|n]; [lia|].
-  assert (Hn' : (0 < n)%nat).
-  { destruct n; [|lia]. cbn in Hx. lia. }
-  assert (Hq : 0 <= x / 10 < 10 ^ Z.of_nat n).
-  { split; [apply Z.div_pos; lia|]. apply Z.div_lt_upper_bound; [lia|].
-    rewrite Nat2Z.inj_succ, Z.pow_succ_r in Hx by lia. lia. }
-  pose proof (IH (x / 10) n Hq Hn'). lia.
-Qed.
-
-Lemma pow10_nat n : pow10 (N.of_nat n) = 10 ^ Z.of_nat n.
-Proof. unfold pow10. rewrite nat_N_Z. reflexivity. Qed.
-
-(* a figure below 10^n in magnitude has at most n integer digits (n >= 1) *)
-Lemma dfmt_int_len d n : (0 < n)%nat -> Z.abs (dm d) < pow10 (ds d + N.of_nat n) ->
-  (length (dfmt_int d) <= n)%nat.
-Proof.
-  intros Hn H. unfold dfmt_int, nat_digits. apply int_digits_len; [|assumption].
-  pose proof (c17_pow10_pos (ds d)) as HS.
-  split; [apply Z.div_pos; lia|]. apply Z.div_lt_upper_bound; [lia|].
-  rewrite <- pow10_nat, <- c17_pow10_add. assumption.
-Qed.
-
-Lemma dfmt_room_small d p n : (0 < n)%nat -> Z.abs (dm d) < pow10 (ds d + N.of_nat n) ->
-  (n + 1 + N.to_nat p <= fmt_capacity)%nat -> dfmt_room d p = true.
-Proof.
-  intros Hn H C. unfold dfmt_room. apply Nat.leb_le.
-  pose proof (dfmt_int_len d n Hn H). destruct (p =? 0)%N; lia.
-Qed.
-
-(* rounding can carry into one more integer digit, not more *)
-Lemma dround_magnitude d k n : Z.abs (dm d) < pow10 (ds d + n) ->
-  Z.abs (dm (dround_hafz d k)) < pow10 (ds (dround_hafz d k) + (n + 1)).
-Proof.
-  intros H. destruct (N.lt_ge_cases k (ds d)) as [L|L].
-  2:{ rewrite dround_small by assumption. rewrite N.add_assoc, (c17_pow10_add _ 1).
-      pose proof (c17_pow10_pos (ds d + n)). change (pow10 1) with 10. lia. }
-  rewrite dround_large by assumption. cbn [dm ds].
-  assert (HP : pow10 (ds d + n) = pow10 (ds d - k) * pow10 (k + n))
-    by (rewrite <- c17_pow10_add; f_equal; lia).
-  rewrite HP in H. clear HP.
-  pose proof (c17_pow10_pos (ds d - k)) as HD. pose proof (c17_pow10_pos (k + n)) as HK.
-  rewrite N.add_assoc, (c17_pow10_add _ 1). change (pow10 1) with 10.
-  unfold hafz_num. rewrite !hu_large by assumption.
-  set (D := pow10 (ds d - k)) in *. set (K := pow10 (k + n)) in *.
-  assert (B : forall a, 0 <= a < D * K -> (2 * a + D) / (2 * D) < K * 10).
-  { intros a Ha. apply Z.div_lt_upper_bound; nia. }
-  destruct (Z.leb_spec 0 (dm d)) as [P|P].
-  - rewrite Z.abs_eq by (apply Z.div_pos; lia). apply B. lia.
-  - rewrite Z.abs_opp, Z.abs_eq by (apply Z.div_pos; lia). apply B. lia.
-Qed.
-
-(* every figure below 10^n is printed when n + 2 + max <= 32 (e.g. max = 7: below 10^23) *)
-Lemma shown_text_total sc d n : (sc_min sc <= sc_max sc)%N ->
-  Z.abs (dm d) < pow10 (ds d + N.of_nat n) ->
-  (n + 2 + N.to_nat (sc_max sc) <= fmt_capacity)%nat ->
-  exists t, shown_text sc d = Some t.
-Proof.
-  intros W H C. unfold shown_text, dfmt_prec.
-  rewrite (dfmt_room_small _ _ (S n)); [eexists; reflexivity | lia | |].
-  - unfold shown_dec. replace (N.of_nat (S n)) with (N.of_nat n + 1)%N by lia.
-    apply dround_magnitude. assumption.
-  - pose proof (precision_bounds sc d W). lia.
-Qed.
-
-(* ... but not every representable figure under every admitted scale setting:
-   1234.5 with scale = { min = 28, max = 28 } needs 4 + 1 + 28 = 33 characters *)
-Lemma shown_text_refuted : exists sc d,
-  scale_wf sc /\ fits d = true /\ shown_text sc d = None.
-Proof.
-  exists (mkScale 28 28), (mkDec 12345 1). split; [|split].
-  - unfold scale_wf. cbn. lia.
-  - vm_compute. reflexivity.
-  - vm_compute. reflexivity.
 Qed.
 
 (* ------------------------------------------------------------------ the oracle *)
@@ -562,10 +520,9 @@ Proof.
 Qed.
 
 (* the model passes the oracle: the oracle does not reject what the theorems allow *)
-Lemma shown_ok_model sc d t : (sc_min sc <= sc_max sc)%N -> shown_text sc d = Some t ->
-  shown_ok sc d t = true.
+Lemma shown_ok_model sc d : (sc_min sc <= sc_max sc)%N -> shown_ok sc d (shown_text sc d) = true.
 Proof.
-  intros W T. destruct (shown_digits sc d t W T) as (r & R & (L1 & L2) & V).
+  intros W. destruct (shown_digits sc d W) as (r & R & (L1 & L2) & V).
   unfold shown_ok. rewrite R. apply andb_true_iff. split.
   - apply andb_true_iff. split; apply N.leb_le; assumption.
   - apply Qeq_bool_iff. rewrite V. apply shown_value. assumption.
@@ -581,43 +538,22 @@ Qed.
 (* ------------------------------------------------------------------ display only: reports *)
 (* every figure of a report goes through shown_text; what it shows is the rounding of the
    exact figure z, however z was accumulated *)
-Lemma fig_display_only sc d z t : (sc_min sc <= sc_max sc)%N -> dwf d -> d28 d = z ->
-  shown_text sc d = Some t -> shows sc t (q28 z).
+Lemma fig_display_only sc d z : (sc_min sc <= sc_max sc)%N -> dwf d -> d28 d = z ->
+  shows sc (shown_text sc d) (q28 z).
 Proof.
-  intros W F E T. destruct (shown_digits sc d t W T) as (r & R & B & V).
+  intros W F E. destruct (shown_digits sc d W) as (r & R & B & V).
   exists r. split; [assumption|]. split; [assumption|].
   rewrite V. apply shown_of_exact; assumption.
 Qed.
 
-Lemma omap_Forall2 {A B} (f : A -> option B) l : forall l', omap f l = Some l' ->
-  Forall2 (fun x y => f x = Some y) l l'.
+Lemma bal_rows_display_only sc ps rows : (sc_min sc <= sc_max sc)%N ->
+  Forall (exact_row ps) rows -> Forall2 (row_shows sc ps) rows (bal_text_rows sc rows).
 Proof.
-  induction l as [|x l IH]; intros l' H; cbn [omap] in H.
-  - inversion H. constructor.
-  - destruct (f x) as [y|] eqn:E; [|discriminate]. destruct (omap f l) as [ys|]; [|discriminate].
-    inversion H; subst. constructor; [assumption | apply IH; reflexivity].
-Qed.
-
-Lemma Forall2_weaken {A B} (P Q : A -> B -> Prop) l l' :
-  (forall x y, In x l -> P x y -> Q x y) -> Forall2 P l l' -> Forall2 Q l l'.
-Proof.
-  intros H F. induction F as [|x y l l' Hxy F IH]; constructor.
-  - apply H; [left; reflexivity | assumption].
-  - apply IH. intros a b Ha. apply H. right. assumption.
-Qed.
-
-Lemma bal_rows_display_only sc ps rows trs : (sc_min sc <= sc_max sc)%N ->
-  Forall (exact_row ps) rows -> bal_text_rows sc rows = Some trs ->
-  Forall2 (row_shows sc ps) rows trs.
-Proof.
-  intros W H T. apply omap_Forall2 in T. rewrite Forall_forall in H.
-  eapply Forall2_weaken; [|exact T]. intros r tr Hr E. cbv beta in E.
-  destruct (H r Hr) as (F1 & F2 & E1 & E2). unfold bal_text_row_of in E.
-  destruct (shown_text sc (r_own r)) as [o|] eqn:TO; [|discriminate].
-  destruct (shown_text sc (r_tree r)) as [t|] eqn:TT; [|discriminate].
-  inversion E; subst. unfold row_shows. cbn [bt_acc bt_comm bt_own bt_tree].
-  split; [reflexivity|]. split; [reflexivity|].
-  split; [apply (fig_display_only sc (r_own r)) | apply (fig_display_only sc (r_tree r))]; assumption.
+  intros W H. induction H as [|r rows (F1 & F2 & E1 & E2) _ IH]; cbn [bal_text_rows map].
+  - constructor.
+  - constructor; [|exact IH]. unfold row_shows. cbn [bt_acc bt_comm bt_own bt_tree].
+    split; [reflexivity|]. split; [reflexivity|].
+    split; apply fig_display_only; assumption.
 Qed.
 
 Lemma c17_insert_in {A} (leb : A -> A -> bool) x y l : In y (insert_by leb x l) -> y = x \/ In y l.
@@ -635,38 +571,22 @@ Proof.
   intros H. apply c17_insert_in in H. destruct H as [->|H]; [left; reflexivity | right; apply IH; assumption].
 Qed.
 
-Lemma Forall2_in_r {A B} (P : A -> B -> Prop) l l' y : Forall2 P l l' -> In y l' ->
-  exists x, In x l /\ P x y.
-Proof.
-  intros F. induction F as [|a b l l' Hab F IH]; intros Hy; [destruct Hy|].
-  destruct Hy as [->|Hy]; [exists a; split; [left; reflexivity | assumption]|].
-  destruct (IH Hy) as (x & Hx & Px). exists x. split; [right|]; assumption.
-Qed.
-
-Lemma bal_deltas_display_only sc rows deltas tds : (sc_min sc <= sc_max sc)%N ->
+Lemma bal_deltas_display_only sc rows deltas : (sc_min sc <= sc_max sc)%N ->
   (forall c d, In (c, d) deltas -> dwf d /\ d28 d = spec_delta rows c) ->
-  bal_text_deltas sc deltas = Some tds ->
-  forall t c, In (t, c) tds -> shows sc t (q28 (spec_delta rows c)).
+  forall t c, In (t, c) (bal_text_deltas sc deltas) -> shows sc t (q28 (spec_delta rows c)).
 Proof.
-  intros W H T t c Hin. unfold bal_text_deltas in T. apply omap_Forall2 in T.
-  destruct (Forall2_in_r _ _ _ _ T Hin) as ([c' d] & Hcd & E). cbn [fst snd] in E.
-  destruct (shown_text sc d) as [t'|] eqn:TT; [|discriminate]. cbn [option_map] in E.
-  inversion E; subst. apply c17_sort_by_in in Hcd. destruct (H c d Hcd) as [F Z].
-  apply (fig_display_only sc d); assumption.
+  intros W H t c Hin. unfold bal_text_deltas in Hin. apply in_map_iff in Hin.
+  destruct Hin as ([c' d] & E & Hin). cbn [fst snd] in E. inversion E; subst.
+  apply c17_sort_by_in in Hin. destruct (H c d Hin) as [F Z].
+  apply fig_display_only; assumption.
 Qed.
 
 (* register: amount and running total are both shown from the exact figures *)
-Lemma reg_row_display_only sc amount total za zt ta tt : (sc_min sc <= sc_max sc)%N ->
+Lemma reg_row_display_only sc amount total za zt : (sc_min sc <= sc_max sc)%N ->
   dwf amount -> dwf total -> d28 amount = za -> d28 total = zt ->
-  reg_text_row sc amount total = Some (ta, tt) ->
-  shows sc ta (q28 za) /\ shows sc tt (q28 zt).
-Proof.
-  intros W F1 F2 E1 E2 T. unfold reg_text_row in T.
-  destruct (shown_text sc amount) as [a|] eqn:TA; [|discriminate].
-  destruct (shown_text sc total) as [t|] eqn:TT; [|discriminate].
-  inversion T; subst.
-  split; [apply (fig_display_only sc amount) | apply (fig_display_only sc total)]; auto.
-Qed.
+  shows sc (fst (reg_text_row sc amount total)) (q28 za)
+  /\ shows sc (snd (reg_text_row sc amount total)) (q28 zt).
+Proof. intros. split; apply fig_display_only; assumption. Qed.
 
 (* ------------------------------------------------------------------ examples *)
 Definition ex_sc : scale_cfg := mkScale 2 2.
@@ -678,27 +598,28 @@ Definition ex_ps : list bpost :=
 (* the displayed total 0.25 of `a` is the rounded exact total, although its displayed
    parts 0.13 + 0.13 add up to 0.26 *)
 Lemma display_example :
-  exists rows trs, balance (fun _ => true) (fun l => l) ex_ps = Some rows
+  exists rows, balance (fun _ => true) (fun l => l) ex_ps = Some rows
   /\ Forall (exact_row ex_ps) rows
-  /\ bal_text_rows ex_sc rows = Some trs
-  /\ map (fun tr => (bt_acc tr, bt_own tr, bt_tree tr)) trs
+  /\ map (fun tr => (bt_acc tr, bt_own tr, bt_tree tr)) (bal_text_rows ex_sc rows)
      = [ ([[97]],       [48; 46; 48; 48],     [48; 46; 50; 53]);          (* a     0.00  0.25 *)
          ([[97]; [98]], [48; 46; 49; 51],     [48; 46; 49; 51]);          (* a:b   0.13  0.13 *)
          ([[97]; [99]], [48; 46; 49; 51],     [48; 46; 49; 51]);          (* a:c   0.13  0.13 *)
          ([[101]],      [45; 48; 46; 50; 53], [45; 48; 46; 50; 53]) ]%N.  (* e    -0.25 -0.25 *)
 Proof.
-  eexists. eexists. split; [vm_compute; reflexivity|]. split; [|split].
+  eexists. split; [vm_compute; reflexivity|]. split.
   - repeat constructor; vm_compute; try reflexivity; discriminate.
-  - vm_compute. reflexivity.
   - vm_compute. reflexivity.
 Qed.
 
 (* midpoints go away from zero in both directions, at the last and at the first decimal;
-   a negative figure that rounds to zero is shown without sign *)
+   a negative figure that rounds to zero is shown without sign; a long figure under
+   scale = { min = 28, max = 28 } is printed (33 characters; it used to panic, F18) *)
 Lemma midpoint_examples :
   map (fun mk => shown_text (mkScale 0 (snd mk)) (mkDec (fst (fst mk)) (snd (fst mk))))
       [ (125, 3%N, 2%N); (-125, 3%N, 2%N); (25, 1%N, 0%N); (-25, 1%N, 0%N); (35, 1%N, 0%N);
         (5, 1%N, 0%N); (-4, 3%N, 2%N); (-5, 3%N, 2%N) ]
-  = map Some [ [48; 46; 49; 51]; [45; 48; 46; 49; 51]; [51]; [45; 51]; [52]; [49];
-      [48; 46; 48; 48]; [45; 48; 46; 48; 49] ]%N.
-Proof. vm_compute. reflexivity. Qed.
+  = [ [48; 46; 49; 51]; [45; 48; 46; 49; 51]; [51]; [45; 51]; [52]; [49];
+      [48; 46; 48; 48]; [45; 48; 46; 48; 49] ]%N
+  /\ shown_text (mkScale 28 28) (mkDec 12345 1)
+     = ([49; 50; 51; 52; 46; 53] ++ repeat 48 27)%N.
+Proof. split; vm_compute; reflexivity. Qed.
